@@ -78,33 +78,34 @@ func (b *Built) script(tn string, bytesVariant bool, steps ...map[string]any) (*
 }
 
 type valPayload struct {
-	Kind   string `json:"kind"`
-	Tn     string `json:"tn"`
-	K      int    `json:"k"`
-	TL1OK  bool   `json:"tl1ok"`
-	TL1    []int  `json:"tl1"`
-	TL1B   []int  `json:"tl1b"`
-	Small  bool   `json:"small"`
-	Orig2  bool   `json:"origin2"`
-	NegZ   bool   `json:"negzero"`
-	TL2Opt bool   `json:"tl2opt"`
-	HasTL2 bool   `json:"hastl2"`
-	TL2    []int  `json:"tl2"`
-	JSON   *JT    `json:"json"`
-	Alt    *JT    `json:"alt"`
-	M      string `json:"m"`
-	Bad    bool   `json:"bad"`
-	Accept bool   `json:"accept"`
-	Dec2OK bool   `json:"dec2ok"`
-	Req    []int  `json:"req"`
-	Res1   []int  `json:"res1"`
-	Res2   []int  `json:"res2"`
-	ResJ   *JT    `json:"resj"`
-	From   *encs  `json:"from"`
-	To     *encs  `json:"to"`
-	Boxed  bool   `json:"boxed"`
-	B      []int  `json:"b"`
-	Dec    struct {
+	Kind     string `json:"kind"`
+	Tn       string `json:"tn"`
+	K        int    `json:"k"`
+	TL1OK    bool   `json:"tl1ok"`
+	TL1      []int  `json:"tl1"`
+	TL1B     []int  `json:"tl1b"`
+	Small    bool   `json:"small"`
+	Orig2    bool   `json:"origin2"`
+	NegZ     bool   `json:"negzero"`
+	TL2Opt   bool   `json:"tl2opt"`
+	HasTL2   bool   `json:"hastl2"`
+	TL2      []int  `json:"tl2"`
+	JSON     *JT    `json:"json"`
+	Alt      *JT    `json:"alt"`
+	M        string `json:"m"`
+	Bad      bool   `json:"bad"`
+	Accept   bool   `json:"accept"`
+	Dec2OK   bool   `json:"dec2ok"`
+	Writable bool   `json:"writable"`
+	Req      []int  `json:"req"`
+	Res1     []int  `json:"res1"`
+	Res2     []int  `json:"res2"`
+	ResJ     *JT    `json:"resj"`
+	From     *encs  `json:"from"`
+	To       *encs  `json:"to"`
+	Boxed    bool   `json:"boxed"`
+	B        []int  `json:"b"`
+	Dec      struct {
 		OK       bool  `json:"ok"`
 		Unk      bool  `json:"unk"`
 		Big      bool  `json:"big"`
@@ -195,6 +196,10 @@ func runCorpusTL1(c *core.Ctx, prop string, cp Corpus, k, kmut, kjson, kre, kmut
 		return nil
 	}
 	c.Logf("corpus %s: %d top-level TL1 types, K=%d KMut=%d", cp.Name, len(tops), k, kmut)
+	kbad := 0
+	if prop == "C01" {
+		kbad = k
+	}
 	var otf *core.Proc
 	if prop == "C12" {
 		if otf, err = startOTF(c, cp); err != nil {
@@ -203,7 +208,7 @@ func runCorpusTL1(c *core.Ctx, prop string, cp Corpus, k, kmut, kjson, kre, kmut
 		defer otf.Close()
 	}
 	var firstErr error
-	nVal, nBytes, nAlt, nEdge, nRe, nFn, acc, rej, unk := 0, 0, 0, 0, 0, 0, 0, 0, 0
+	nVal, nBytes, nAlt, nEdge, nRe, nFn, nBad, acc, rej, unk := 0, 0, 0, 0, 0, 0, 0, 0, 0, 0
 	onEmit := func(raw json.RawMessage) {
 		if firstErr != nil {
 			return
@@ -289,6 +294,35 @@ func runCorpusTL1(c *core.Ctx, prop string, cp Corpus, k, kmut, kjson, kre, kmut
 				nVal++
 			case "bytes", "bytes2":
 				nBytes++
+			}
+			return
+		}
+		if p.Kind == "bad" {
+			if prop != "C01" {
+				return
+			}
+			nBad++
+			// the invalid value is injected through TL2 (which carries its own element counts)
+			r, err := b.script(p.Tn, nBad%2 == 1 && cp.BytesVers != "", map[string]any{"op": "read2", "in": p.TL2})
+			if err != nil {
+				firstErr = err
+				return
+			}
+			s := r.Steps[0]
+			c.Add("evaluations", 1)
+			if s.Err != "" || s.Dump == nil {
+				c.Add("invalid_values_not_injectable", 1)
+				return
+			}
+			key := fmt.Sprintf("tl1-invalid/%s/%s/%s", cp.Name, p.Tn, hexs(p.TL2))
+			if s.Panic != "" {
+				c.Violate(key, "writer panics on an invalid value: "+s.Panic, p)
+			} else if s.Dump.TL1Err == "" || s.Dump.TL1BErr == "" {
+				c.Violate(key, fmt.Sprintf("type %s: a value whose array length disagrees with its size parameter (TL2 %s) is encoded in TL1 as %s / %s instead of a write error",
+					p.Tn, hexs(p.TL2), hexs(s.Dump.TL1), hexs(s.Dump.TL1B)), p)
+			}
+			if nBad%53 == 1 {
+				c.Sample(map[string]any{"corpus": cp.Name, "type": p.Tn, "invalid_value_as_tl2": hexs(p.TL2), "write_error": s.Dump.TL1Err})
 			}
 			return
 		}
@@ -417,7 +451,7 @@ func runCorpusTL1(c *core.Ctx, prop string, cp Corpus, k, kmut, kjson, kre, kmut
 	res, err := c.TLC(core.TLCOpts{Module: "MC_Codec", Cfg: "MC_Codec.cfg", Workers: 8, Timeout: 20 * time.Minute,
 		Files:  map[string][]byte{"SchemaData.tla": b.SchemaModuleX(tops, extraVals)},
 		OnEmit: onEmit,
-		Consts: map[string]string{"SANITY": tlaBool(cp.Sanity), "MAXLEN": "2", "LONGSTR": "{}", "K": strconv.Itoa(k), "KMUT": strconv.Itoa(kmut), "KJSON": strconv.Itoa(kjson), "KRE": strconv.Itoa(kre), "KMUT2": strconv.Itoa(kmut2), "KFN": strconv.Itoa(kfn), "EDGES": tlaBool(prop == "C09")}})
+		Consts: map[string]string{"SANITY": tlaBool(cp.Sanity), "MAXLEN": "2", "LONGSTR": "{}", "K": strconv.Itoa(k), "KMUT": strconv.Itoa(kmut), "KJSON": strconv.Itoa(kjson), "KRE": strconv.Itoa(kre), "KMUT2": strconv.Itoa(kmut2), "KFN": strconv.Itoa(kfn), "KBAD": strconv.Itoa(kbad), "EDGES": tlaBool(prop == "C09")}})
 	if err != nil {
 		return err
 	}
@@ -438,6 +472,7 @@ func runCorpusTL1(c *core.Ctx, prop string, cp Corpus, k, kmut, kjson, kre, kmut
 	c.Add("history_edges", nEdge)
 	c.Add("tl2_reencodings", nRe)
 	c.Add("function_results", nFn)
+	c.Add("invalid_values", nBad)
 	c.Add("impl_accepted", acc)
 	c.Add("impl_rejected", rej)
 	c.Add("outside_model", unk)
